@@ -9,6 +9,7 @@
 //!   POST /swallow     read the body ignoring errors (unwrap_or_default), answer 200 with its length
 //!   GET  /close       answer 200 with a `connection: close` response header
 //!   GET  /err         handler returns Err without answering
+//!   GET  /errint      handler returns Err of kind Interrupted without answering
 //!   GET  /bigr/:n     answer 200 from a reader of n bytes 'x' (auto framing)
 //!   GET  /p/:a/:b     answer 200 "<a>,<b>"
 //!   anything else     404 (fallback)
@@ -60,6 +61,9 @@ pub fn build_server(max_head: usize) -> Server {
         res.ok(&h, "bye")
     });
     b.route(Method::Get, "/err", |_ctx, _res| Err(std::io::Error::other("handler error")));
+    b.route(Method::Get, "/errint", |_ctx, _res| {
+        Err(std::io::Error::new(std::io::ErrorKind::Interrupted, "interrupted"))
+    });
     b.route(Method::Get, "/bigr/:n", |ctx, res| {
         let n: u64 = ctx.params.get("n").and_then(|s| s.parse().ok()).unwrap_or(0);
         res.okr(Headers::empty_nodate(), std::io::repeat(b'x').take(n))
@@ -169,11 +173,25 @@ pub fn read_response(c: &mut TcpStream, pending: &mut Vec<u8>, timeout: Duration
 pub fn conn(arg: &str) -> String {
     let mut max = 4096usize;
     let mut script = "";
+    let mut warm = 0usize;
     for w in arg.split_whitespace() {
         if let Some(v) = w.strip_prefix("max=") { max = v.parse().unwrap_or(4096) }
         if let Some(v) = w.strip_prefix("script=") { script = v }
+        if let Some(v) = w.strip_prefix("warm=") { warm = v.parse().unwrap_or(0) }
     }
     let server = build_server(max);
+    // `warm=M`: the SAME thread first serves a connection of another server whose head limit is M
+    // (per-thread state such as the request buffer must not leak from one server configuration into the next)
+    let warm_pair = if warm > 0 {
+        let l = TcpListener::bind("127.0.0.1:0").unwrap();
+        let mut c = TcpStream::connect(l.local_addr().unwrap()).unwrap();
+        let (s, _) = l.accept().unwrap();
+        let _ = c.write_all(b"GET /p/1/2 HTTP/1.1\r\n\r\n");
+        let _ = c.shutdown(std::net::Shutdown::Write);
+        Some((build_server(warm), s, c))
+    } else {
+        None
+    };
     let listener = TcpListener::bind("127.0.0.1:0").unwrap();
     let addr = listener.local_addr().unwrap();
     let mut client = TcpStream::connect(addr).unwrap();
@@ -184,6 +202,11 @@ pub fn conn(arg: &str) -> String {
     RECV_MAX_LEN.store(0, Ordering::SeqCst);
     RECV_LOG_FD.store(srv_fd, Ordering::SeqCst);
     let th = std::thread::spawn(move || {
+        if let Some((ws, wstream, wclient)) = warm_pair {
+            let _ = ws.handle(&wstream);
+            drop(wstream);
+            drop(wclient);
+        }
         let r = server.handle(&srv_stream);
         drop(srv_stream);
         r.is_ok()
